@@ -191,6 +191,8 @@ pub fn cnf_strategy() -> BoxedStrategy<CnfCase> {
         2 => gadget_strategy(),
         2 => contradiction_strategy(),
         2 => regroup_strategy(7),
+        // many clauses: the builders sort clauses with a non-total comparator, which only larger inputs exercise
+        1 => (3u8..=7).prop_flat_map(|nv| proptest::collection::vec(proptest::collection::vec(lit_strategy(nv), 1..=3), 20..=44)),
         1 => (1u8..=7).prop_flat_map(|nv| clauses_strategy(nv, 6, 1, 1)),
         1 => Just(vec![]),
     ]
